@@ -31,6 +31,10 @@ const prop = "C06"
 // not name come out as Go zero values even when the IDL declares a default.
 const fdStructLit = "struct-literal-drops-defaults"
 
+// listed finding: an identifier inside a struct literal is looked up in the
+// file that defines the struct instead of the file that writes the literal.
+const fdIdentScope = "struct-literal-identifier-scope"
+
 func TestMain(m *testing.M) {
 	vt.AtExit(drv.CloseAll)
 	vt.Main(m)
@@ -1060,6 +1064,51 @@ func addExtras(rt *rapid.T, p *idl.Program) {
 			}
 		}
 	}
+	// an identifier inside a struct literal whose struct lives in an included file, where that file has a
+	// constant of the same name: the identifier denotes the constant of the file that writes the literal
+	if rapid.IntRange(0, 2).Draw(rt, "xshadow") == 0 {
+		type cand struct {
+			st *idl.Def
+			fd *idl.Field
+		}
+		var cands []cand
+		for _, inc := range f.Includes {
+			if pkgDir(inc) == pkgDir(f) {
+				continue
+			}
+			for _, d := range inc.Defs {
+				if d.Kind != idl.KStruct && d.Kind != idl.KException {
+					continue
+				}
+				for _, fd := range d.Fields {
+					switch fd.Type.Base {
+					case "i16", "i32", "i64", "string":
+						cands = append(cands, cand{d, fd})
+					}
+				}
+			}
+		}
+		if len(cands) > 0 {
+			if vt.Known(prop, fdIdentScope) {
+				vt.Excluded(fdIdentScope)
+			} else {
+				c := rapid.SampledFrom(cands).Draw(rt, "xshadowfield")
+				mk := func(n int64) *idl.Value {
+					if c.fd.Type.Base == "string" {
+						return &idl.Value{Kind: idl.VLit, Lit: idl.PlainLit(fmt.Sprintf("s%d", n))}
+					}
+					return &idl.Value{Kind: idl.VInt, Int: n}
+				}
+				theirs := &idl.Def{Kind: idl.KConst, Name: "Cshadow9200", File: c.st.File, Type: &idl.Type{Base: c.fd.Type.Base}, Value: mk(1)}
+				c.st.File.Defs = append(c.st.File.Defs, theirs)
+				ours := &idl.Def{Kind: idl.KConst, Name: "Cshadow9200", File: f, Type: &idl.Type{Base: c.fd.Type.Base}, Value: mk(2)}
+				f.Defs = append(f.Defs, ours)
+				f.Defs = append(f.Defs, &idl.Def{Kind: idl.KConst, Name: "Cextra9300", File: f, Type: &idl.Type{Ref: c.st},
+					Value: &idl.Value{Kind: idl.VMap, Keys: []*idl.Value{{Kind: idl.VLit, Lit: idl.PlainLit(c.fd.Name)}},
+						List: []*idl.Value{{Kind: idl.VIdent, Ident: "Cshadow9200", RefConst: ours}}}})
+			}
+		}
+	}
 	if len(enums) > 0 {
 		for i := rapid.IntRange(0, 1).Draw(rt, "nxenum"); i > 0; i-- {
 			e := rapid.SampledFrom(enums).Draw(rt, "xenum")
@@ -1121,6 +1170,8 @@ func genCase(rt *rapid.T) (progCase, map[string]*rowMeta, *idl.Program) {
 			m.tags["const_type:"+t.Kind.String()] = true
 			if strings.HasPrefix(d.Name, "Cextra90") {
 				m.tags["extra_const_map_same_key_value_type"] = true
+			} else if d.Name == "Cextra9300" {
+				m.tags["extra_const_struct_literal_names_shadowed_constant"] = true
 			} else if strings.HasPrefix(d.Name, "Cextra") {
 				m.tags["extra_const_reference"] = true
 			}
